@@ -146,7 +146,7 @@ func genTarSpec(t *T, small, big int, maxEntries int) *tarSpec {
 		// odd but valid element names: ordinary bytes, never separators
 		// (ASCII only: a multi-byte name makes archive/tar emit PAX records, and the header-corruption fault
 		// computes header offsets for plain USTAR entries)
-		alpha = []string{"a", `a\b`, "a:b", "a b"}
+		alpha = []string{"a", `a\b`, "a:b", "a b", "..a"} // ("..a" is an ordinary name: only the element ".." climbs)
 	}
 	n := 1 + c.Draw(maxEntries)
 	sizes := []int{0, 1, small - 1, small, small + 1, big + 1, 2*big + 7, 100}
@@ -427,9 +427,13 @@ func runC13(t *T) {
 		stream.cutAt = 512 * c.Draw(len(data)/512+1)
 	case "stream-error":
 		stream.failAt = c.Draw(len(data) + 1)
-		if c.Chance(1, 3) {
+		switch c.Weighted(4, 2, 1) {
+		case 1:
 			// a cut-off decompressing or limited reader underneath: a bare io.ErrUnexpectedEOF in the middle of the data
 			stream.failErr = io.ErrUnexpectedEOF
+		case 2:
+			// an error that wraps io.EOF without being it (errors.Is says yes, == says no): still a failure of the stream
+			stream.failErr = fmt.Errorf("verif: connection lost: %w", io.EOF)
 		}
 	case "corrupt-header":
 		// flip a byte inside the header block of a drawn entry (data bytes carry no checksum: a flipped
